@@ -142,6 +142,17 @@ impl EventBuilder {
         }
     }
 
+    /// Adds a value read from a string (VarBytes) column. Unlike `add_field`, a payload
+    /// value is kept verbatim as a string: the column's schema type is `string`, so
+    /// "17", "true" or "null" must not be re-interpreted as a number, boolean or null.
+    #[inline]
+    pub fn add_field_str(&mut self, field: &str, value: &str) {
+        match field {
+            "event_type" | "context_id" | "timestamp" | "event_id" => self.add_field(field, value),
+            _ => self.insert_value(field, ScalarValue::Utf8(value.to_string())),
+        }
+    }
+
     #[inline]
     fn add_payload_field(&mut self, field: &str, value: &str) {
         // Normalize whitespace
